@@ -19,11 +19,30 @@
 #define VERIF_ELEM long
 #endif
 
+#ifndef VERIF_PTR_KIND
+#define VERIF_PTR_KIND 0   // 0 raw pointers, 1 minimal fancy pointer, 2 bounds-checking fancy pointer (property C11)
+#endif
+#include "ptrs.hpp"
+
 namespace multi = boost::multi;
 using T = VERIF_ELEM;
 constexpr int MAXD = 5;
 
-template<int D> using view_t = multi::subarray<T, D>;
+#if VERIF_PTR_KIND == 0
+using ptr_t = T*;
+using cptr_t = T const*;
+inline ptr_t unconst(cptr_t p) { return const_cast<T*>(p); }
+inline ptr_t unconst(ptr_t p) { return p; }
+template<class U> using verif_alloc = std::allocator<U>;
+#else
+using ptr_t = vptr::fancy<T, VERIF_PTR_KIND == 2>;
+using cptr_t = vptr::fancy<T const, VERIF_PTR_KIND == 2>;
+inline ptr_t unconst(cptr_t const& p) { return ptr_t(vptr::unconst_t{}, p); }
+inline ptr_t unconst(ptr_t const& p) { return p; }
+template<class U> using verif_alloc = vptr::alloc<U, VERIF_PTR_KIND == 2>;
+#endif
+
+template<int D> using view_t = multi::subarray<T, D, ptr_t>;
 struct elem0 { T* p; };  // zero-dimensional result: one element
 using any_view = std::variant<std::monostate, elem0, view_t<1>, view_t<2>, view_t<3>, view_t<4>, view_t<5>>;
 
@@ -35,7 +54,7 @@ static long g_root_n = 0;
 template<class R> auto norm(R&& r) {
 	using RR = std::decay_t<R>;
 	constexpr int DD = RR::rank_v;
-	return view_t<DD>(r.layout(), const_cast<T*>(r.base()));
+	return view_t<DD>(r.layout(), unconst(r.base()));
 }
 
 struct unsupported { std::string why; };
@@ -123,6 +142,10 @@ static void jlist(std::ostream& os, std::vector<long> const& v) {
 
 static long cellno(T const* p) { return static_cast<long>(p - g_root); }
 static long cellno(T const& r) { return cellno(&r); }
+#if VERIF_PTR_KIND != 0
+static long cellno(ptr_t const& p) { return cellno(raw(p)); }
+static long cellno(cptr_t const& p) { return cellno(raw(p)); }
+#endif
 
 template<int D, std::size_t... K>
 auto make_ext(std::vector<long> const& sizes, std::vector<long> const& firsts, std::index_sequence<K...> /*unused*/) {
